@@ -371,6 +371,17 @@ def gen_reccol():
   Rp = [R('Rp', x, ('rec', (('a', x), ('b', y))), body=(Lit('A', x, y),)), Ann('@NoInject(Rp);')]
   yield Case('EXPR', Program(Rp + [R('T', V('p'), V('q'), body=(Lit('Rp', x, V('r')), Eq(V('p'), ('fld', V('r'), 'a')), Eq(V('q'), ('fld', V('r'), 'b'))))]), ['T', 'Rp'])
   yield Case('EXPR', Program(Rp + [R('T', x, ('fld', V('r'), 'b'), body=(Lit('Rp', x, V('r')), Cmp('>', ('fld', V('r'), 'a'), N(1))))]), ['T'])
+  # two levels of record destructuring ahead of the literal that binds the outer record, and behind it
+  Rn = [R('Rn', x, ('rec', (('b', ('rec', (('a', x), ('c', y)))), ('n', y))), body=(Lit('A', x, y),)), Ann('@NoInject(Rn);')]
+  q_, p_, rec_, outer_ = V('q'), V('p'), V('rec'), V('outer')
+  parts = (Eq(q_, Bin('+', p_, N(1))), Eq(('rec', (('a', p_), ('c', z))), rec_), Eq(('rec', (('b', rec_), ('n', V('m')))), outer_), Lit('Rn', x, outer_))
+  for order in ((0, 1, 2, 3), (3, 2, 1, 0), (1, 2, 3, 0), (2, 0, 3, 1)):
+    yield Case('EXPR', Program(Rn + [R('T', x, q_, z, body=tuple(parts[i] for i in order))]), ['T'])
+  # the same against a predicate given by one fact (injected: the outer record is a literal of the caller)
+  Rc = [R('Rc', ('rec', (('b', ('rec', (('a', N(1)), ('c', N(2))))), ('n', N(3)))))]
+  parts = (Eq(q_, Bin('+', p_, N(1))), Eq(('rec', (('a', p_), ('c', z))), rec_), Eq(('rec', (('b', rec_), ('n', V('m')))), outer_), Lit('Rc', outer_))
+  for order in ((0, 1, 2, 3), (3, 2, 1, 0), (1, 2, 3, 0), (2, 0, 3, 1), (0, 2, 1, 3)):
+    yield Case('EXPR', Program(Rc + [R('T', q_, z, body=tuple(parts[i] for i in order) + (Lit('B', z),))]), ['T'])
   Lp = [R('Lp', x, ('list', (x, y)), body=(Lit('A', x, y),)), Ann('@NoInject(Lp);')]
   yield Case('EXPR', Program(Lp + [R('T', x, V('e'), Call('Size', V('l')), body=(Lit('Lp', x, V('l')), ('in', V('e'), V('l'))))]), ['T', 'Lp'])
 
@@ -636,6 +647,22 @@ def gen_mix(full):
     yield Case('MIX', Program([R('T', x, Aggr('Sum', N(1)), body=(Lit('B', x), Not(Lit('A', x, x)), o), distinct=True)]), ['T'])
     yield Case('MIX', Program([R('T', x, Aggr('List', x), Aggr('Count', x), body=(Lit('B', x), o, Cmp('>=', Comb('Count', z, (Lit('A', z, x),)), N(0))), distinct=True)]), ['T'])
     yield Case('MIX', Program([R('T', x, value=Aggr('Sum', N(1)), body=(Lit('B', x), Not(Lit('A', x, z), Lit('B', z)), o))]), ['T'])
+  # an aggregating expression nested below the top of an expression that mentions the variable the conjunct constrains (a filter, not a definition), before and after the literal binding it
+  nested = [Eq(x, Bin('+', N(1), Comb('Sum', y, (Lit('B', y), Cmp('<', y, x))))), Eq(x, Bin('-', Bin('*', N(2), Comb('Count', y, (Lit('A', y, z), Cmp('<=', y, x)))), N(0))),
+            ('in', x, ('list', (Comb('Count', y, (Lit('A', x, y),)), N(1)))), Eq(V('l'), ('list', (Comb('Sum', y, (Lit('A', x, y),)), x))), Cmp('<', x, Bin('+', Comb('Max', y, (Lit('A', y, x),)), N(1))),
+            Eq(x, ('if', Bin('>', Comb('Count', y, (Lit('A', x, y),)), N(0)), x, N(1)))]
+  for c in nested:
+    head = (x, V('l')) if 'l' in lang.bvars((c,)) else (x,)
+    yield Case('MIX', Program([R('T', *head, body=(c, Lit('B', x)))]), ['T'])
+    yield Case('MIX', Program([R('T', *head, body=(Lit('B', x), c))]), ['T'])
+    yield Case('MIX', Program([R('T', *head, body=(c, Lit('B', x), Cmp('>', x, N(0))))]), ['T'])
+  # two inclusions where the list of one mentions the element of the other through a nested aggregation, both orders, with padding inclusions (generated names x_9 / x_10)
+  pad = [('in', V('p%d' % i), ('list', (N(i),))) for i in range(4)]
+  i1 = ('in', y, ('list', (N(1), N(2), N(3))))
+  i2 = ('in', z, ('list', (Bin('+', N(0), Comb('Sum', V('w'), (Lit('B', V('w')), Cmp('<=', V('w'), y)))), N(7))))
+  for k in range(5):
+    yield Case('MIX', Program([R('T', x, y, z, body=(Lit('B', x),) + tuple(pad[:k]) + (i2, i1))]), ['T'])
+    yield Case('MIX', Program([R('T', x, y, z, body=(Lit('B', x), i1) + tuple(pad[:k]) + (i2,))]), ['T'])
   ins = [('in', Bin('+', x, N(1)), ('list', (Bin('+', y, N(1)), Bin('+', x, N(1))))), ('in', N(2), ('list', (x, y, N(2)))), ('in', x, ('list', (y, y))), ('in', x, ('list', (y, x, N(1)))),
          ('in', Bin('*', x, N(1)), ('list', (y, x))), ('in', Bin('+', x, y), ('list', (N(2), N(3), Bin('*', x, N(2)), Bin('*', y, N(2))))), ('in', Call('ToString', x), ('list', (Call('ToString', y), S('1'), S('1'))))]
   for i in ins:
